@@ -9,6 +9,9 @@ package condition
 // symbolic byte in the request's tag table, so the i-th atom is true iff truth byte i == 't'.
 
 import (
+	"net"
+	"net/url"
+
 	"github.com/bfenetworks/bfe/bfe_basic"
 	"github.com/bfenetworks/bfe/bfe_basic/condition/parser"
 	"github.com/bfenetworks/bfe/bfe_http"
@@ -324,4 +327,138 @@ func VerifC16_buildString() {
 	swappedVal := sref.eval(sroot, truth)
 	vrt.Known("C16-or-binds-tighter-than-and", mixedC16(toks) && got == swappedVal)
 	vrt.Assert(got == want, "C16/string-value")
+}
+
+// checkSentenceC16: one concrete sentence (token kinds), rendered as text, through the real Build and Match
+// with an independent symbolic truth value per atom, against the reference evaluation.
+func checkSentenceC16(toks []int) {
+	ref, root, refOK := refParseC16(toks, false)
+	vrt.Assert(refOK, "C16/reference-self-consistent")
+	cond, err := Build(renderC16(toks))
+	vrt.Assert(err == nil && cond != nil, "C16/group-builds")
+	if err != nil {
+		return
+	}
+	req, truth := mkReqC16(countAtomsC16(toks))
+	got := cond.Match(req)
+	want := ref.eval(root, truth)
+	sref, sroot, _ := refParseC16(toks, true)
+	swappedVal := sref.eval(sroot, truth)
+	vrt.Known("C16-or-binds-tighter-than-and", mixedC16(toks) && got == swappedVal)
+	vrt.Assert(got == want, "C16/negated-group-value")
+}
+
+// VerifC16_negatedGroup: "parentheses first, then !" on sentences longer than the token bound of the two
+// exhaustive harnesses: a negated parenthesised group of three operands, ! ( x op y op z ), the operator
+// chosen independently per position. Variants (one at a time, to keep the number of sentences small):
+// 0: every operand an atom or a negated atom; 1: the group in a second pair of parentheses; 2: the group
+// negated twice; 3: followed by "op atom" outside the group; 4: preceded by "atom op".
+// Value of the built condition == reference value for all truth assignments.
+func VerifC16_negatedGroup() {
+	ops := []int{parser.TokAndC16, parser.TokOrC16}
+	variant := vrt.Choose("variant", 5)
+	var group []int
+	for i := 0; i < 3; i++ {
+		if i > 0 {
+			group = append(group, ops[vrt.Choose("op", 2)])
+		}
+		if variant == 0 && vrt.Choose("negated-operand", 2) == 1 {
+			group = append(group, parser.TokNotC16)
+		}
+		group = append(group, parser.TokAtomC16)
+	}
+	var toks []int
+	if variant == 4 {
+		toks = append(toks, parser.TokAtomC16, ops[vrt.Choose("outer-op", 2)])
+	}
+	toks = append(toks, parser.TokNotC16)
+	if variant == 2 {
+		toks = append(toks, parser.TokNotC16)
+	}
+	toks = append(toks, parser.TokLpC16)
+	if variant == 1 {
+		toks = append(toks, parser.TokLpC16)
+	}
+	toks = append(toks, group...)
+	toks = append(toks, parser.TokRpC16)
+	if variant == 1 {
+		toks = append(toks, parser.TokRpC16)
+	}
+	if variant == 3 {
+		toks = append(toks, ops[vrt.Choose("outer-op", 2)], parser.TokAtomC16)
+	}
+	checkSentenceC16(toks)
+}
+
+// ---- ! applied to the truth value of a real primitive whose attribute may be missing ----
+
+// The property: ! is applied "to the truth values of its primitives" - whatever the truth value of a
+// primitive p is on a request (also on a request that lacks the inspected attribute, where the primitive is
+// false), !p is its complement on that very request. Nothing is assumed here about WHICH value p has.
+var notPrimsC16 = []string{
+	"req_cookie_value_in(\"uid\", \"a\", false)",
+	"req_cookie_value_prefix_in(\"uid\", \"a\", true)",
+	"req_header_value_in(\"X-Uid\", \"a\", false)",
+	"req_query_value_in(\"uid\", \"a\", false)",
+	"req_path_in(\"/a\", false)",
+	"req_cip_range(\"10.0.0.1\", \"10.0.0.9\")",
+	"req_vip_in(\"10.0.0.1\")",
+	"ses_sip_range(\"10.0.0.1\", \"10.0.0.9\")",
+	"req_tag_match(\"a0\", \"t\")",
+}
+
+func asciiC16(n int) string {
+	s := vrt.Str("attr", n)
+	for i := 0; i < n; i++ {
+		vrt.Assume(s[i] < 0x80)
+	}
+	return s
+}
+
+// mkAttrReqC16: present == false: a request that carries none of the attributes the primitives above
+// inspect (no cookie, no header, no URL, no addresses, no tags); present == true: all of them, each with a
+// symbolic value.
+func mkAttrReqC16(present bool) *bfe_basic.Request {
+	req := &bfe_basic.Request{Session: &bfe_basic.Session{}, HttpRequest: &bfe_http.Request{Header: bfe_http.Header{}}}
+	req.CookieMap = bfe_http.CookieMap{}
+	req.Query = url.Values{}
+	if !present {
+		return req
+	}
+	req.CookieMap["uid"] = &bfe_http.Cookie{Name: "uid", Value: asciiC16(1)}
+	req.HttpRequest.Header["X-Uid"] = []string{asciiC16(1)}
+	req.Query["uid"] = []string{asciiC16(1)}
+	req.HttpRequest.URL = &url.URL{Path: "/" + asciiC16(1)}
+	last := func() net.IP { b := vrt.Bytes("ip", 1); return net.IP{10, 0, 0, b[0]} }
+	req.ClientAddr = &net.TCPAddr{IP: last(), Port: 1}
+	req.Session.Vip = last()
+	req.Session.RemoteAddr = &net.TCPAddr{IP: last(), Port: 1}
+	req.Tags.TagTable = map[string][]string{"a0": {asciiC16(1)}}
+	return req
+}
+
+func mustBuildC16(src string) Condition {
+	c, err := Build(src)
+	vrt.Assert(err == nil && c != nil, "C16/not-primitive-builds")
+	return c
+}
+
+// VerifC16_notOfPrimitive: for a real primitive p (cookie / header / query value, path, client / virtual /
+// socket address, tag) and a request on which the inspected attribute is absent, or present with a symbolic
+// value: Match(!p) == !Match(p), Match(!(p)) == !Match(p), Match(!!p) == Match(p), and p || !p holds,
+// p && !p does not.
+func VerifC16_notOfPrimitive() {
+	src := notPrimsC16[vrt.Choose("primitive", len(notPrimsC16))]
+	req := mkAttrReqC16(vrt.Choose("present", 2) == 1)
+	p := mustBuildC16(src).Match(req)
+	if p {
+		vrt.Cover("C16/primitive-true")
+	} else {
+		vrt.Cover("C16/primitive-false")
+	}
+	vrt.Assert(mustBuildC16("!"+src).Match(req) == !p, "C16/not-is-complement")
+	vrt.Assert(mustBuildC16("!("+src+")").Match(req) == !p, "C16/not-of-parenthesised-is-complement")
+	vrt.Assert(mustBuildC16("!!"+src).Match(req) == p, "C16/double-not-is-identity")
+	vrt.Assert(mustBuildC16(src+" || !"+src).Match(req), "C16/p-or-not-p")
+	vrt.Assert(!mustBuildC16(src+" && !"+src).Match(req), "C16/p-and-not-p")
 }
